@@ -828,6 +828,7 @@ def r115(rep: Report, ctx: Ctx) -> None:
     c07.parent_rewiring(rep, ctx, "R1.15")
     c07.rewiring_order(rep, ctx, "R1.15")
     c07.graph_helpers(rep, ctx, "R1.15")
+    c07.scc_order(rep, ctx, "R1.15")
     from .loopspec import TABLE, check_table
     check_table(rep, ctx, "R1.15", list(TABLE))
 
